@@ -93,7 +93,9 @@ impl Blob {
 
         // Update blob section header with actual lenght
         let end_offset = writer.physical_position()?;
-        section_header.section_length = length;
+        // The section length covers the header, the data and the padding to the next 4-byte offset
+        let padding = (4 - length % 4) % 4;
+        section_header.section_length = 16 + length + padding;
         writer.physical_seek(start_offset)?;
         section_header.to_writer(writer)?;
         writer.physical_seek(end_offset)?;
